@@ -355,7 +355,8 @@ impl ContainerAttributesInfo {
                     "The `rename_all` attribute is defined twice.",
                 ));
             }
-            self.rename_all = Some(rename_all)
+            self.rename_all = Some(rename_all);
+            self.rename_all_span = other.rename_all_span;
         }
         if let Some(err_ty) = other.err_ty {
             if let Some(self_err_ty) = &self.err_ty {
@@ -373,7 +374,8 @@ impl ContainerAttributesInfo {
                     "The `tag` attribute is defined twice.",
                 ));
             }
-            self.tag = TagType::Internal(x)
+            self.tag = TagType::Internal(x);
+            self.tag_span = other.tag_span;
         }
         if let Some(x) = other.deny_unknown_fields {
             if let Some(self_deny_unknown_fields_span) = &self.deny_unknown_fields_span {
@@ -383,6 +385,7 @@ impl ContainerAttributesInfo {
                 ));
             }
             self.deny_unknown_fields = Some(x);
+            self.deny_unknown_fields_span = other.deny_unknown_fields_span;
         }
         if let Some(x) = other.from {
             if let Some(self_from) = &self.from {
